@@ -141,6 +141,15 @@ def run(run):
     run.relabel('C10.a', 'C18.f')
     run.relabel('C10.c', 'C18.f')
     run.floor('C18.f', 4)
+    # the bit containers: every operation, for every capacity 1..255 and every in-range index, addresses only storage the array owns
+    # (the refinement rule of C20.e; a violation there is an out-of-bounds access)
+    from rules import c20 as _c20
+    for v_ in facts.variants(run.tier)[:1]:
+        F_ = facts.load('w_bitarrays', 'PS', v_, 'c++11')
+        run.guard('bit array refinement', _c20.refinement, run, F_)
+        facts.drop(F_)
+    run.relabel('C20.e', 'C18.g')
+    run.floor('C18.g', 1000)
     run.explanation = (
         'Allocation-freedom from the AST (every new-expression is the reserved placement form into storage/_items, no delete, '
         'externals limited to memset / placement operator new / type_index) cross-checked on the undefined symbols of the '
